@@ -24,6 +24,10 @@ pub enum Op {
     AssertAny,
     /// two assertions with seeded credential n, one after the other, in one task
     AssertTwice(u8),
+    /// two verified assertions with a PRF evaluation, in one task, by an authenticator configured
+    /// with a non-gated secret, on seeded credential 3 that was created with the gated secret only
+    /// (authenticators with different hmac-secret configurations sharing one store)
+    AssertTwicePrfMixedConfig,
     /// an ordinary assertion, then a silent one (up = uv = false, nothing reported by the user
     /// step) and another silent one with seeded credential n, in one task
     AssertThenSilent(u8),
@@ -82,7 +86,11 @@ const RP: &str = "example.com";
 const START: u32 = 7;
 
 fn seeds() -> Vec<Passkey> {
-    vec![seeded(&Seed { n: 1, rp: RP.into(), handle: Some(vec![1]), counter: Some(START), hmac: None }), seeded(&Seed { n: 2, rp: RP.into(), handle: Some(vec![2]), counter: Some(START), hmac: None })]
+    vec![
+        seeded(&Seed { n: 1, rp: RP.into(), handle: Some(vec![1]), counter: Some(START), hmac: None }),
+        seeded(&Seed { n: 2, rp: RP.into(), handle: Some(vec![2]), counter: Some(START), hmac: None }),
+        seeded(&Seed { n: 3, rp: RP.into(), handle: Some(vec![3]), counter: Some(START), hmac: Some(false) }),
+    ]
 }
 
 type Results = Arc<StdMutex<Vec<Option<Outcome>>>>;
@@ -106,6 +114,18 @@ where
                 let first = auth.get_assertion(ga_request(RP, Some(vec![cred_id(n)]), false, true, true, false, None)).await.map(|r| r.auth_data.counter.unwrap_or(0)).map_err(u8::from);
                 let second = auth.get_assertion(ga_request(RP, Some(vec![cred_id(n)]), false, true, true, false, None)).await.map(|r| r.auth_data.counter.unwrap_or(0)).map_err(u8::from);
                 Outcome::AssertedSeq { cred: cred_id(n), results: vec![first, second] }
+            }
+            Op::AssertTwicePrfMixedConfig => {
+                use passkey_types::ctap2::extensions::{AuthenticatorPrfInputs, AuthenticatorPrfValues};
+                let uv = ScriptedUv { verification_cap: Some(true), presence_cap: true, outcome: UvOutcome::Ok { presence: true, verification: true }, yields: uv_yields, log: Log::new() };
+                let mut a2 = Authenticator::new(Aaguid::new_empty(), Yielding { inner: store2, before: 1, after: 0 }, uv).hmac_secret(passkey_authenticator::extensions::HmacSecretConfig::new_without_uv());
+                let req = || {
+                    let ext = passkey_types::ctap2::get_assertion::ExtensionInputs { hmac_secret: None, prf: Some(AuthenticatorPrfInputs { eval: Some(AuthenticatorPrfValues { first: [6; 32], second: None }), eval_by_credential: None }) };
+                    ga_request(RP, Some(vec![cred_id(3)]), false, true, true, false, Some(ext))
+                };
+                let first = a2.get_assertion(req()).await.map(|r| r.auth_data.counter.unwrap_or(0)).map_err(u8::from);
+                let second = a2.get_assertion(req()).await.map(|r| r.auth_data.counter.unwrap_or(0)).map_err(u8::from);
+                Outcome::AssertedSeq { cred: cred_id(3), results: vec![first, second] }
             }
             Op::AssertThenSilent(n) => {
                 let first = auth.get_assertion(ga_request(RP, Some(vec![cred_id(n)]), false, true, true, false, None)).await.map(|r| r.auth_data.counter.unwrap_or(0)).map_err(u8::from);
@@ -258,8 +278,11 @@ pub fn scenarios(tier: Tier) -> Vec<(Scenario, Option<usize>)> {
             v.push((mk("assert;assert(lost write-back)", vec![Op::AssertTwice(1)], "memory-flaky"), None));
             // silent assertions (nothing asked of the user, nothing reported) advance the counter too
             v.push((mk("assert;silent;silent", vec![Op::AssertThenSilent(1)], "memory"), None));
+            v.push((mk("prf-assert;prf-assert(mixed hmac configurations)", vec![Op::AssertTwicePrfMixedConfig], "memory"), None));
+
             let b3 = Some(tier.pick(2, 3));
             v.push((mk("assert;silent;silent||register", vec![Op::AssertThenSilent(1), Op::Register], "memory"), b3));
+            v.push((mk("prf-assert;prf-assert(mixed hmac configurations)||assert(other)", vec![Op::AssertTwicePrfMixedConfig, Op::Assert(2)], "memory"), b3));
             v.push((mk("assert;assert(lost write-back)||register", vec![Op::AssertTwice(1), Op::Register], "memory-flaky"), b3));
             v.push((mk("assert||assert||assert(same)", vec![Op::Assert(1), Op::Assert(1), Op::Assert(1)], "memory"), b3));
             v.push((mk("assert||assert||register", vec![Op::Assert(1), Op::Assert(1), Op::Register], "memory"), b3));
